@@ -1586,6 +1586,163 @@ func randomSceneParts(rng *rand.Rand, parts int) (*osm.OSM, string) {
 	return g.o, class
 }
 
+// ---------- ids outside the 40 bits a FeatureID packs ----------
+
+// extremeIDs gives some nodes, ways and relations ids that are negative (objects of an editor
+// that are not uploaded yet, id='-1' in .osm files) or do not fit in the 40 bits osm.FeatureID
+// keeps of a ref.  Only elements whose identity the conversion takes from the element itself
+// are renumbered: nodes, ways and relations that are NOT members of a relation, and relations
+// that are not of type multipolygon/boundary (buildPolygon reads type and ref back out of the
+// packed FeatureID, and the membership map is keyed by packed FeatureIDs, so there the model's
+// exact (type, ref) keys and the packing agree only on ids in [0, 2^40): domain assumption of
+// the check, see notes/C17.md).  References to a renumbered node (way nodes, annotated member
+// nodes) follow.  The renumbering is dropped when two different (type, id) keys of the scene
+// would pack to the same FeatureID.  Reports whether ids were changed.
+func extremeIDs(o *osm.OSM, rng *rand.Rand) bool {
+	member := map[[2]int64]bool{}
+	for _, r := range o.Relations {
+		for _, m := range r.Members {
+			member[[2]int64{int64(typeNum[m.Type]), m.Ref}] = true
+		}
+	}
+	k := int64(0)
+	pick := func() int64 {
+		k++
+		switch rng.Intn(8) {
+		case 0:
+			return -k
+		case 1:
+			return -(int64(1) << 31) - k
+		case 2:
+			return -(int64(1) << 40) - 3*k
+		case 3:
+			return math.MinInt64 + k
+		case 4:
+			return int64(1)<<40 + k - 1
+		case 5:
+			return int64(1)<<40 + int64(1)<<39 + 5*k
+		case 6:
+			return int64(1)<<47 + 777777 + k
+		default:
+			return math.MaxInt64 - k
+		}
+	}
+	nodeNew := map[osm.NodeID]osm.NodeID{}
+	for _, n := range o.Nodes {
+		if !member[[2]int64{1, int64(n.ID)}] && rng.Intn(2) == 0 {
+			if _, dup := nodeNew[n.ID]; !dup {
+				nodeNew[n.ID] = osm.NodeID(pick())
+			}
+		}
+	}
+	wayNew := map[osm.WayID]osm.WayID{}
+	for _, w := range o.Ways {
+		if !member[[2]int64{2, int64(w.ID)}] && rng.Intn(2) == 0 {
+			if _, dup := wayNew[w.ID]; !dup {
+				wayNew[w.ID] = osm.WayID(pick())
+			}
+		}
+	}
+	relNew := map[osm.RelationID]osm.RelationID{}
+	for _, r := range o.Relations {
+		t := r.Tags.Find("type")
+		if !member[[2]int64{3, int64(r.ID)}] && t != "multipolygon" && t != "boundary" && rng.Intn(2) == 0 {
+			if _, dup := relNew[r.ID]; !dup {
+				relNew[r.ID] = osm.RelationID(pick())
+			}
+		}
+	}
+	if len(nodeNew)+len(wayNew)+len(relNew) == 0 {
+		return false
+	}
+	// the packing must stay injective on the keys of the scene
+	packed := map[osm.FeatureID][2]int64{}
+	clash := false
+	see := func(t int64, id int64) {
+		var f osm.FeatureID
+		switch t {
+		case 1:
+			if v, ok := nodeNew[osm.NodeID(id)]; ok {
+				id = int64(v)
+			}
+			f = osm.NodeID(id).FeatureID()
+		case 2:
+			if v, ok := wayNew[osm.WayID(id)]; ok {
+				id = int64(v)
+			}
+			f = osm.WayID(id).FeatureID()
+		default:
+			if v, ok := relNew[osm.RelationID(id)]; ok {
+				id = int64(v)
+			}
+			f = osm.RelationID(id).FeatureID()
+		}
+		key := [2]int64{t, id}
+		if old, ok := packed[f]; ok && old != key {
+			clash = true
+		}
+		packed[f] = key
+	}
+	for _, n := range o.Nodes {
+		see(1, int64(n.ID))
+	}
+	for _, w := range o.Ways {
+		see(2, int64(w.ID))
+	}
+	for _, r := range o.Relations {
+		see(3, int64(r.ID))
+	}
+	for key := range member {
+		if key[0] >= 1 && key[0] <= 3 {
+			// member refs are never renumbered (their elements are not), so the maps do not apply
+			var f osm.FeatureID
+			switch key[0] {
+			case 1:
+				f = osm.NodeID(key[1]).FeatureID()
+			case 2:
+				f = osm.WayID(key[1]).FeatureID()
+			default:
+				f = osm.RelationID(key[1]).FeatureID()
+			}
+			if old, ok := packed[f]; ok && old != key {
+				clash = true
+			}
+			packed[f] = key
+		}
+	}
+	if clash {
+		return false
+	}
+	for _, n := range o.Nodes {
+		if v, ok := nodeNew[n.ID]; ok {
+			n.ID = v
+		}
+	}
+	for _, w := range o.Ways {
+		if v, ok := wayNew[w.ID]; ok {
+			w.ID = v
+		}
+		for i := range w.Nodes {
+			if v, ok := nodeNew[w.Nodes[i].ID]; ok {
+				w.Nodes[i].ID = v
+			}
+		}
+	}
+	for _, r := range o.Relations {
+		if v, ok := relNew[r.ID]; ok {
+			r.ID = v
+		}
+		for i := range r.Members {
+			for j := range r.Members[i].Nodes {
+				if v, ok := nodeNew[r.Members[i].Nodes[j].ID]; ok {
+					r.Members[i].Nodes[j].ID = v
+				}
+			}
+		}
+	}
+	return true
+}
+
 // ---------- fixed corpus ----------
 
 func tagsOf(kv ...string) osm.Tags {
@@ -1750,6 +1907,39 @@ func corpus() []*osm.OSM {
 		Nodes: nodesAt([3]int{1, 1, 1}, [3]int{2, 5, 1}, [3]int{3, 5, 5}, [3]int{4, 1, 5}),
 		Ways:  osm.Ways{wayIDs(1, tagsOf("area", "yes"), 901, 1, 4, 3, 2, 901), wayIDs(2, tagsOf("building", "yes"), 1, 2, 3, 1)},
 	})
+	// negative ids (editor objects not uploaded yet) and ids beyond the 40 bits of a FeatureID, for
+	// every element kind whose identity comes from the element itself: tagged and untagged nodes,
+	// a line way, an area way, a way with a missing node, two route relations, another relation
+	{
+		const B = int64(1) << 40
+		x := &osm.OSM{
+			Nodes: nodesAt([3]int{1, 10, 10}, [3]int{2, 20, 10}, [3]int{3, 20, 20}, [3]int{4, 10, 20}, [3]int{5, 30, 30}, [3]int{6, 40, 31}, [3]int{7, 44, 35}, [3]int{8, 50, 50}, [3]int{9, 60, 60}),
+			Ways: osm.Ways{wayIDs(1, tagsOf("building", "yes"), 1, 2, 3, 4, 1), wayIDs(2, tagsOf("highway", "path"), 5, 6, 903, 7),
+				wayIDs(3, nil, 5, 6), wayIDs(4, nil, 6, 7), wayIDs(5, tagsOf("area", "yes", "name", "x"), 1, 3, 4, 1)},
+			Relations: osm.Relations{
+				{ID: 1, Tags: tagsOf("type", "route", "route", "bus"), Members: osm.Members{{Type: osm.TypeWay, Ref: 3}, {Type: osm.TypeWay, Ref: 4}}},
+				{ID: 2, Tags: tagsOf("type", "route"), Members: osm.Members{{Type: osm.TypeWay, Ref: 4, Role: "forward"}, {Type: osm.TypeWay, Ref: 77}}},
+				{ID: 3, Tags: tagsOf("type", "site"), Members: osm.Members{{Type: osm.TypeWay, Ref: 3, Role: "x"}}},
+			},
+		}
+		x.Nodes[7].Tags, x.Nodes[8].Tags = tagsOf("amenity", "cafe"), tagsOf("natural", "tree")
+		ren := map[osm.NodeID]osm.NodeID{1: -1, 2: osm.NodeID(B), 3: osm.NodeID(-B - 9), 8: -7, 9: osm.NodeID(B + B/2 + 5)}
+		for _, n := range x.Nodes {
+			if v, ok := ren[n.ID]; ok {
+				n.ID = v
+			}
+		}
+		for _, w := range x.Ways {
+			for i := range w.Nodes {
+				if v, ok := ren[w.Nodes[i].ID]; ok {
+					w.Nodes[i].ID = v
+				}
+			}
+		}
+		x.Ways[0].ID, x.Ways[1].ID, x.Ways[4].ID = -2, osm.WayID(B+777777), osm.WayID(int64(1)<<62+9)
+		x.Relations[0].ID, x.Relations[1].ID, x.Relations[2].ID = -3, osm.RelationID(B*2+1), -(1 << 31)
+		out = append(out, x)
+	}
 	return out
 }
 
@@ -1831,7 +2021,7 @@ func main() {
 	rng := wire.Rng(a.Seed)
 	callRng = rand.New(rand.NewSource(a.Seed*7919 + 17))
 	w := wire.NewWriter("C17", a.Seed, a.Tier)
-	w.Rule = "data sets: fixed corpus, then random scenes of 1-3 parts (L loose nodes/ways/other relations, R route chains cut, reversed, shuffled, with gaps and missing nodes/ways, M multipolygon/boundary relations over rectangle rings cut into 1-3 ways with inner rings, broken rings, missing/annotated member ways, own tags or none); each data set converted under 16 option sets twice. distinct = distinct token streams; trivial = no feature in the baseline."
+	w.Rule = "data sets: fixed corpus, then random scenes of 1-3 parts (L loose nodes/ways/other relations, R route chains cut, reversed, shuffled, with gaps and missing nodes/ways, M multipolygon/boundary relations over rectangle rings cut into 1-3 ways with inner rings, broken rings, missing/annotated member ways, own tags or none; X in one scene of three some nodes/ways/route and other relations that are not relation members get negative ids or ids >= 2^40); each data set converted under 16 option sets twice. distinct = distinct token streams; trivial = no feature in the baseline."
 	n := 150
 	if a.Tier == "thorough" {
 		n = 1500
@@ -1884,6 +2074,10 @@ func main() {
 	}
 	for i := 0; i < n; i++ {
 		o, class := randomScene(rng)
+		if rng.Intn(3) == 0 && extremeIDs(o, rng) {
+			class += "X"
+			w.Count("ids-negative-or-beyond-40-bits")
+		}
 		add(o, class)
 		if a.Tier == "thorough" && i%125 == 60 {
 			// a big data set (hundreds of elements) under five option sets
